@@ -695,6 +695,75 @@ Example c13_nonvacuous_cert_pipeline :
   cert_pipeline (fun x => x) [([98], [[109]]); ([97], [[109]]); ([98], [[120]])] [109] = Some [97].
 Proof. split; vm_compute; reflexivity. Qed.
 
+(* ---- the proc_limits array with everything print_json emits per entry (name, soft, hard, unit; any formatter), from the stream
+   bytes: the same for every iteration order of the HashMap (c13_limits_pipeline_order_independent was about the names) *)
+Theorem c13_limits_entries_order_independent :
+  forall (R : Type) (fmt : bytes * (limit * limit * bytes) -> R) (p1 p2 : list entry -> list entry) (data : bytes),
+  (forall m, Permutation (p1 m) m) -> (forall m, Permutation (p2 m) m) ->
+  limits_render fmt p1 data = limits_render fmt p2 data.
+Proof. exact @limits_render_order_independent. Qed.
+Print Assumptions c13_limits_entries_order_independent.
+
+Example c13_nonvacuous_limits_entries :
+  (* a stream whose second "Max open files" line replaces the first; the map iterated forwards and backwards *)
+  let b := bytes_of_string in
+  let nl := String (Ascii.ascii_of_nat 10) "" in
+  let data := b ("Limit  Soft Limit  Hard Limit  Units" ++ nl ++ "Max open files  1024  4096  files" ++ nl ++
+                 "Max cpu time  unlimited  unlimited  seconds" ++ nl ++ "Max open files  7  9  files" ++ nl)%string in
+  limits_render (fun e => e) (@rev _) data =
+    Ret [(b "Max cpu time", (Unlimited, Unlimited, b "seconds")); (b "Max open files", (Limited 7, Limited 9, b "files"))] /\
+  limits_render (fun e => e) (fun m => m) data = limits_render (fun e => e) (@rev _) data.
+Proof. cbv zeta. split; vm_compute; reflexivity. Qed.
+
+(* closed form of the certificate fold (any iteration order, distinct names or not): the module gets the GREATEST certificate
+   name, in the order the code sorts by, among the certificates that list it; none if no certificate lists it.  With a strict
+   TOTAL order on the names this determines the certificate from the set of entries alone *)
+Theorem c13_cert_greatest_wins :
+  forall (C M : Type) (meqb : M -> M -> bool) (cltb : C -> C -> bool),
+  (forall a, cltb a a = false) ->
+  (forall a b c, cltb a b = true -> cltb b c = true -> cltb a c = true) ->
+  forall (iter : list (C * list M)) (x : M),
+  match cert_of meqb cltb iter x with
+  | None => forall e, In e iter -> existsb (meqb x) (snd e) = false
+  | Some c => (exists ms, In (c, ms) iter /\ existsb (meqb x) ms = true) /\
+              forall e, In e iter -> existsb (meqb x) (snd e) = true -> cltb c (fst e) = false
+  end.
+Proof. intros C M meqb cltb Hi Ht. exact (@cert_greatest_wins C M meqb cltb Hi Ht). Qed.
+Print Assumptions c13_cert_greatest_wins.
+
+Example c13_nonvacuous_cert_greatest :
+  cert_pipeline (@rev _) [([97], [[109]]); ([98], [[109]; [120]])] [109] = Some [98] /\
+  cert_pipeline (fun x => x) [([98], [[109]; [120]]); ([97], [[109]])] [109] = Some [98] /\
+  cert_pipeline (fun x => x) [([98], [[109]; [120]]); ([97], [[109]])] [121] = None.
+Proof. repeat split; vm_compute; reflexivity. Qed.
+
+(* ---- a BTreeSet of any strictly, totally ordered key (the register names check_for_bitflips walks; the offsets above): what
+   an iteration yields is the strictly ascending list of the members, whatever the order of the inserts and however often a
+   member was inserted *)
+Theorem c13_ordered_set_order_independent :
+  forall (K : Type) (kltb : K -> K -> bool),
+  (forall a, kltb a a = false) ->
+  (forall a b c, kltb a b = true -> kltb b c = true -> kltb a c = true) ->
+  (forall a b, kltb a b = false -> kltb b a = false -> a = b) ->
+  forall l1 l2 : list K, Permutation l1 l2 -> oset_of_list kltb l1 = oset_of_list kltb l2.
+Proof. intros K kltb Hi Ht Hto. exact (@oset_of_list_perm K kltb Hi Ht Hto). Qed.
+Print Assumptions c13_ordered_set_order_independent.
+
+Theorem c13_ordered_set_determined :
+  forall (K : Type) (kltb : K -> K -> bool),
+  (forall a, kltb a a = false) ->
+  (forall a b c, kltb a b = true -> kltb b c = true -> kltb a c = true) ->
+  (forall a b, kltb a b = false -> kltb b a = false -> a = b) ->
+  forall l : list K, osorted kltb (oset_of_list kltb l) /\ forall x, In x (oset_of_list kltb l) <-> In x l.
+Proof. intros K kltb Hi Ht Hto. exact (@oset_of_list_spec K kltb Hi Ht Hto). Qed.
+Print Assumptions c13_ordered_set_determined.
+
+Example c13_nonvacuous_ordered_set :
+  (* rcx, rax, rcx, rdx as byte strings *)
+  oset_of_list bytes_ltb [[114; 99; 120]; [114; 97; 120]; [114; 99; 120]; [114; 100; 120]] = [[114; 97; 120]; [114; 99; 120]; [114; 100; 120]] /\
+  oset_of_list bytes_ltb [[114; 100; 120]; [114; 99; 120]; [114; 97; 120]; [114; 99; 120]] = [[114; 97; 120]; [114; 99; 120]; [114; 100; 120]].
+Proof. split; vm_compute; reflexivity. Qed.
+
 (* ---- every iteration over an ORDERED container and every field declared as one is an enumerated, classified site *)
 Theorem c13_ordered_sites_modelled :
   RM.Gen.C13Sites.ordered_iteration_sites = map fst modelled_ordered_iteration_sites /\
